@@ -8,6 +8,7 @@ import (
 	"math/rand"
 	"os"
 
+	"verifharness/internal/drv"
 	"verifharness/internal/load"
 	"verifharness/internal/synth"
 )
@@ -46,6 +47,18 @@ func runCaseDebug(args []string) error {
 		enc.SetIndent("", " ")
 		if contains(*what, "dump") {
 			enc.Encode(a.Env)
+		}
+		if contains(*what, "model") {
+			if d, err := drv.Start(); err == nil {
+				if m, err := callAnalyse(d, a); err == nil {
+					fmt.Println("model outcome:", m.Class, m.Msg)
+					enc.Encode(m.Env)
+					for _, mm := range compareAnalysis(a, m) {
+						fmt.Println("MISMATCH", mm.String())
+					}
+				}
+				d.Close()
+			}
 		}
 		if contains(*what, "facts") {
 			enc.Encode(a.FB)
